@@ -92,10 +92,9 @@ def build_config(flavour: str, n: int, p: float) -> dict[str, Any]:
 
 
 def make_filter(flavour: str, n: int, p: float) -> Any:
-    from ropt.plugins.realization_filter.default import DefaultRealizationFilter
-
     config = validate(build_config(flavour, n, p))
-    return DefaultRealizationFilter(config, 0)
+    manager, _ = make_manager()
+    return manager.get_plugin("realization_filter", method=config.realization_filters[0].method).create(config, 0)
 
 
 def make_inputs(flavour: str, badness: np.ndarray, failed: np.ndarray) -> tuple[np.ndarray, np.ndarray | None]:
@@ -295,15 +294,14 @@ def shards(tier: str, seed: int) -> list[dict[str, Any]]:
     e2e_max = 3 if tier == "quick" else 5
     out: list[dict[str, Any]] = []
     for n in range(1, nmax + 1):
-        for flavour in FLAVOURS:
-            masks = list(range(2**n))
-            if flavour == "con_two_sided" and n > 3:
-                continue
-            if n == 7 and flavour not in ("obj1", "obj2_neg", "con_lower", "con_eq"):
-                continue  # n=7 (5040 orderings x 128 masks x grid) for one flavour per ranking rule
-            chunk = max(1, len(masks) // (1 if n < 5 else (4 if n < 7 else 32)))
-            for group in core.chunked(masks, chunk):
-                out.append({"kind": "direct", "flavour": flavour, "n": n, "masks": group, "seed": seed})
+        flavours = [f for f in FLAVOURS if not (f == "con_two_sided" and n > 3)]
+        if n == 7:
+            flavours = ["obj1", "obj2_neg", "con_lower", "con_eq"]  # n=7 (5040 orderings x 128 masks x grid): one flavour per ranking rule
+        masks = list(range(2**n))
+        chunk = max(1, len(masks) // (1 if n < 4 else 8 if n < 5 else 32 if n < 7 else 128))
+        for group in core.chunked(masks, chunk):
+            # all flavours of one (n, masks) group run in ONE process: their filters share method names and options
+            out.append({"kind": "direct", "flavours": flavours, "n": n, "masks": group, "seed": seed})
     for n in range(1, e2e_max + 1):
         for flavour in FLAVOURS[:-1]:
             out.append({"kind": "e2e", "flavour": flavour, "n": n, "seed": seed})
@@ -312,7 +310,8 @@ def shards(tier: str, seed: int) -> list[dict[str, Any]]:
 
 def run_shard(shard: dict[str, Any]) -> core.ShardResult:
     rec = Recorder(shard)
-    n, flavour, seed = shard["n"], shard["flavour"], shard["seed"]
+    n, seed = shard["n"], shard["seed"]
+    flavour = shard.get("flavour")
     table = value_table(n, seed)
     perms = list(itertools.permutations(range(n)))
     if shard["kind"] == "e2e":
@@ -329,16 +328,17 @@ def run_shard(shard: dict[str, Any]) -> core.ShardResult:
                         rec.add(("e2e-spare", flavour, n, mask, perm, p), lambda: case_of("e2e-spare", flavour, n, perm, failed, p, seed), j)
         return rec.finish()
     grid = percentile_grid(n)
-    filters = {p: make_filter(flavour, n, p) for p in grid}
+    filters = {(flv, p): make_filter(flv, n, p) for flv in shard["flavours"] for p in grid}
     for mask in shard["masks"]:
         failed = np.array([(mask >> i) & 1 == 1 for i in range(n)])
         m = n - int(failed.sum())
         infos = {p: (tail_info(p, m) if m else None) for p in grid}
         for perm in perms:
             badness = table[list(perm)]
-            for p in grid:
-                j = judge(filters[p], flavour, badness, failed, p, infos[p])
-                rec.add(("d", flavour, n, mask, perm, p), lambda: case_of("direct", flavour, n, perm, failed, p, seed), j)
+            for flavour in shard["flavours"]:
+                for p in grid:
+                    j = judge(filters[(flavour, p)], flavour, badness, failed, p, infos[p])
+                    rec.add(("d", flavour, n, mask, perm, p), lambda: case_of("direct", flavour, n, perm, failed, p, seed), j)
     return rec.finish()
 
 
